@@ -64,17 +64,17 @@ type t1Vec struct {
 	} `json:"variant"`
 	Spelling  []int `json:"spelling"`
 	FontLevel *struct {
-		BlueScale  int64   `json:"bluescale"`
-		BlueShift  int32   `json:"blueshift"`
-		BlueFuzz   int32   `json:"bluefuzz"`
-		ForceBold  bool    `json:"forcebold"`
-		StdHW      int64   `json:"stdhw"`
-		StdVW      int64   `json:"stdvw"`
-		OtherBlues []int   `json:"otherblues"`
-		Italic     int64   `json:"italic"`
-		Fixed      bool    `json:"fixed"`
-		Text       []int   `json:"text"`
-		Date       []int   `json:"date"`
+		BlueScale  int64 `json:"bluescale"`
+		BlueShift  int32 `json:"blueshift"`
+		BlueFuzz   int32 `json:"bluefuzz"`
+		ForceBold  bool  `json:"forcebold"`
+		StdHW      int64 `json:"stdhw"`
+		StdVW      int64 `json:"stdvw"`
+		OtherBlues []int `json:"otherblues"`
+		Italic     int64 `json:"italic"`
+		Fixed      bool  `json:"fixed"`
+		Text       []int `json:"text"`
+		Date       []int `json:"date"`
 	} `json:"fontlevel"`
 }
 
@@ -600,6 +600,7 @@ func replayT1(args []string) error {
 	sum := replaySummary{PerOp: map[string]int{}, PerOpOK: map[string]int{}, BySig: map[string]int{}}
 	var wg sync.WaitGroup
 	var firstErr error
+	hangs := 0
 	for w := 0; w < runtime.NumCPU(); w++ {
 		wg.Add(1)
 		go func() {
@@ -622,7 +623,35 @@ func replayT1(args []string) error {
 					mu.Unlock()
 					continue
 				}
-				d := checkT1(&v, j.line)
+				// a reader that does not return is observed, not suffered: the vector is
+				// reported as a hang and its goroutine abandoned; after a few of them the
+				// rest of the batch is left unexamined (the verdict is a violation anyway)
+				mu.Lock()
+				giveUp := hangs >= 6
+				mu.Unlock()
+				if giveUp {
+					continue
+				}
+				var d *disagreement
+				done := make(chan *disagreement, 1)
+				go func() { done <- checkT1(&v, j.line) }()
+				select {
+				case d = <-done:
+				case <-time.After(20 * time.Second):
+					var toks []string
+					for _, t := range v.Glyphs.Toks[len(v.Glyphs.Toks)-1] {
+						if t.T == "n" {
+							toks = append(toks, fmt.Sprint(t.V))
+						} else {
+							toks = append(toks, t.C)
+						}
+					}
+					d = &disagreement{Sig: "t1read[" + v.Fam + "] hang", What: "type1.Read did not return within 20 s",
+						Stimulus: fmt.Sprintf("vector %d (%s): %s", j.line, hostileDesc(j.line), strings.Join(toks, " ")), Expected: "a result or an error", Observed: "still running", Line: j.line}
+					mu.Lock()
+					hangs++
+					mu.Unlock()
+				}
 				mu.Lock()
 				sum.Vectors++
 				sum.PerOp[v.Fam+":"+v.Lay.Cont]++
